@@ -570,19 +570,18 @@ func (p *Proxy) handle(ctx *Context, conn net.Conn, brw *bufio.ReadWriter) error
 		}
 	}
 
+	// A response that could not be written in full (the origin cut the body
+	// short, the client went away, a traffic shaping action closed the
+	// connection) leaves the connection out of frame: it must not be reused.
 	err = res.Write(brw)
 	if err != nil {
 		log.Errorf("martian: got error while writing response back to client: %v", err)
-		if _, ok := err.(*trafficshape.ErrForceClose); ok {
-			closing = errClose
-		}
+		closing = errClose
 	}
 	err = brw.Flush()
 	if err != nil {
 		log.Errorf("martian: got error while flushing response back to client: %v", err)
-		if _, ok := err.(*trafficshape.ErrForceClose); ok {
-			closing = errClose
-		}
+		closing = errClose
 	}
 	return closing
 }
